@@ -3,6 +3,7 @@ package bftworld
 import (
 	"bytes"
 	"fmt"
+	"strings"
 
 	"github.com/canopy-network/canopy/bft"
 	"github.com/canopy-network/canopy/lib"
@@ -21,7 +22,7 @@ type Scenario struct {
 	Q2   int  // COMMIT recipients: 0 all; 1 none; 2 leader only; 3+i node i only
 	V    int  // Byzantine replica: 0 votes; 1 withholds its votes
 	J    int  // Byzantine leader's PRECOMMIT justification: 0 the certificate it just aggregated; 1 a REPLAYED certificate: the first certificate of the first certified block (other round, possibly other results) under the current message header
-	S    int  // 1: the Byzantine node additionally spams every honest node, after every timer generation, with an absurd pacemaker claim and a far-future ELECTION_VOTE (World.Spam)
+	S    int  // 2: like 1, and its ELECTION_VOTE reaches the elected leader FIRST, reporting the highest lock certificate seen on the network with a root-chain build height nobody accepts (World.lockVeto); 1: the Byzantine node additionally spams every honest node, after every timer generation, with an absurd pacemaker claim and a far-future ELECTION_VOTE (World.Spam)
 	U    int  // 1: the Byzantine node is NOT this round's elected leader but acts as one (mode L) with a REPLAYED election certificate: the +2/3 ELECTION_VOTE certificate of an earlier round of this root height in which it was elected; its PROPOSE follows the elected leader's
 	L    int  // Byzantine leader: 0 honest; 1,2 re-proposes known certificate 0/1 with that certificate as HighQc; 3 proposes a fresh block with no justification; 4 equivocates (X to one half of the honest nodes, X' to the other); 5,6 like 1,2 with the latest certificate; 7 equivocates on the certificate RESULTS only (same block, results R / R'); 8 proposes the first certified block again with OTHER results and no justification
 }
@@ -62,6 +63,7 @@ type roundCtx struct {
 	highLock *lib.View
 	disabled bool // scenario not applicable (e.g. L>0 but the Byzantine node does not lead)
 	minQ     map[int]bool
+	vetoSent bool
 }
 
 // RunRound executes one whole round on the real nodes under scenario sc.
@@ -151,6 +153,12 @@ func (w *World) RunRound(sc Scenario) (ok bool) {
 					}
 				}
 			}
+			if sc.S == 2 && e.Kind == KElectionVote && !rc.vetoSent && rc.leader >= 0 && rc.leader != w.Cfg.Byz {
+				// the active adversary answers FIRST: its election vote reports the highest lock anybody could report,
+				// with a root-chain build height no replica will accept (none of HighQc / RcBuildHeight is covered by the vote's signature)
+				rc.vetoSent = true
+				w.lockVeto(rc)
+			}
 			if w.allow(rc, e) {
 				_ = w.Deliver(e)
 			}
@@ -158,7 +166,7 @@ func (w *World) RunRound(sc Scenario) (ok bool) {
 		if rc.disabled {
 			return false
 		}
-		if sc.S == 1 {
+		if sc.S >= 1 {
 			w.Spam(rc.rh, rc.round)
 		}
 	}
@@ -509,6 +517,44 @@ func (w *World) puppet(rc *roundCtx, phaseFired lib.Phase) {
 			m := &bft.Message{Header: view(ph), Qc: &lib.QuorumCertificate{Header: hdr, BlockHash: t.bh, ResultsHash: t.rh, ProposerKey: rc.tmpl.Qc.ProposerKey, Signature: as}, RcBuildHeight: t.rcBuild}
 			sendAll(m)
 		}
+	}
+}
+
+// lockVeto hands the elected leader, before any other election vote, a validly signed ELECTION_VOTE of the Byzantine
+// node that carries the highest lock certificate seen on the network (with its block and results) and the
+// root-chain build height 0.
+func (w *World) lockVeto(rc *roundCtx) {
+	byz := w.Cfg.Byz
+	if byz < 0 || w.Down(byz) || len(w.Certs) == 0 {
+		return
+	}
+	var best *Cert
+	for _, c := range w.Certs {
+		if c.Block == nil || c.Results == nil {
+			continue
+		}
+		if best == nil || best.QC.Header.Less(c.QC.Header) {
+			best = c
+		}
+	}
+	if best == nil {
+		return
+	}
+	hq := &lib.QuorumCertificate{Header: best.QC.Header.Copy(), BlockHash: best.QC.BlockHash, ResultsHash: best.QC.ResultsHash, ProposerKey: best.QC.ProposerKey,
+		Signature: best.QC.Signature, Block: best.Block, Results: best.Results}
+	m := &bft.Message{Qc: &lib.QuorumCertificate{Header: &lib.View{NetworkId: NetworkID, ChainId: ChainID, Height: ChainHeight, RootHeight: rc.rh, Round: rc.round, Phase: lib.Phase_ELECTION_VOTE},
+		ProposerKey: w.Nodes[rc.leader].Key.PublicKey().Bytes()}, HighQc: hq, RcBuildHeight: 0}
+	if err := m.Sign(w.Nodes[byz].Key); err != nil {
+		return
+	}
+	err := w.Nodes[rc.leader].BFT.HandleMessage(clone(m))
+	w.Calls++
+	if w.TraceOn {
+		es := ""
+		if err != nil {
+			es = " ERR " + strings.ReplaceAll(err.Error(), "\n", " ")
+		}
+		w.tracef("veto ELECTION_VOTE n%d->n%d with lock %x@rh%d/r%d and rcBuildHeight 0%s", byz, rc.leader, hq.BlockHash[:4], hq.Header.RootHeight, hq.Header.Round, es)
 	}
 }
 
